@@ -197,7 +197,7 @@ Proof. exact duplicates_after_aggregation. Qed.
 (** Non-vacuity: a counterparty close with four HTLCs; the peer takes HTLC 0 with the preimage, the
     node claims HTLC 1, learns the preimage of HTLC 3 too late. *)
 Definition ex_closure := mkClosure CounterpartyTx 100 5000 144
-  [mkHtlc true 3000 150 true; mkHtlc false 4000 160 true; mkHtlc false 2 155 false; mkHtlc false 1000 170 true].
+  [mkHtlc true 3000 150 true 1; mkHtlc false 4000 160 true 2; mkHtlc false 2 155 false 3; mkHtlc false 1000 170 true 4].
 Definition ex_ops : list op :=
   [OpBlock true [mkSpend 0 false true]; OpBlock true []; OpBlock true [mkSpend 1 true true]] ++ repeat (OpBlock true []) 5 ++
   [OpPreimage 3%nat] ++ repeat (OpBlock true []) 70 ++ [OpBlock true [mkSpend 3 false false]] ++ repeat (OpBlock true []) 6.
@@ -215,7 +215,34 @@ Example C07_conserve_example :
   lost_total ex_closure ex_ops st = 4000 /\ owed_total ex_closure st = 13000.
 Proof. vm_compute. repeat split. Qed.
 Example C07_release_example :
-  claim_released CounterpartyTx ByTimeout (mkHtlc true 3000 150 true) 149 = false /\
-  claim_released CounterpartyTx ByTimeout (mkHtlc true 3000 150 true) 150 = true /\
-  claim_locktime HolderTx ByTimeout (mkHtlc true 3000 150 true) 160 = 150.
+  claim_released CounterpartyTx ByTimeout (mkHtlc true 3000 150 true 1) 149 = false /\
+  claim_released CounterpartyTx ByTimeout (mkHtlc true 3000 150 true 1) 150 = true /\
+  claim_locktime HolderTx ByTimeout (mkHtlc true 3000 150 true 1) 160 = 150.
+Proof. vm_compute. repeat split. Qed.
+
+(** * Claims are per output, whatever the payment hashes *)
+
+Theorem C07_entitled_claimed_per_outpoint : forall c st i,
+  In i (claiming c st) <->
+  exists h, nth_error (c_htlcs c) i = Some h /\ spent_b st i = false /\
+            exists k, claim_request h (knows st i) = Some k /\ claim_released (c_side c) k h (best st) = true.
+Proof. exact claiming_spec. Qed.
+
+Theorem C07_claims_no_duplicate_outpoint : forall c st, NoDup (claiming c st).
+Proof. exact claiming_nodup. Qed.
+
+(** After the preimage of hash [H] is provided (at any point of any history), EVERY inbound non-dust HTLC
+    carrying [H] whose output is unspent is being claimed -- not just the first one. *)
+Theorem C07_same_hash_all_claimed : forall c k0 ops H i h,
+  0 <= c_height c ->
+  nth_error (c_htlcs c) i = Some h -> h_hash h = H -> h_output h = true -> h_outbound h = false ->
+  spent_b (run c k0 (ops ++ learn c H)) i = false ->
+  In i (claiming c (run c k0 (ops ++ learn c H))).
+Proof. exact same_hash_all_claimed. Qed.
+
+Example C07_mpp_example :
+  let c := mkClosure CounterpartyTx 100 5000 144 [mkHtlc false 3000 150 true 7; mkHtlc true 900 160 true 8; mkHtlc false 4000 150 true 7; mkHtlc false 2500 150 true 7] in
+  claiming c (run c [] [OpBlock true []]) = [] /\
+  claiming c (run c [] ([OpBlock true []] ++ learn c 7)) = [0%nat; 2%nat; 3%nat] /\
+  claiming c (run c [] ([OpBlock true []] ++ learn c 7 ++ [OpBlock true [mkSpend 2 true true]] ++ repeat (OpBlock true []) 60)) = [0%nat; 1%nat; 3%nat].
 Proof. vm_compute. repeat split. Qed.
